@@ -191,8 +191,8 @@ var c19Texts = []string{
 
 type c19Op struct {
 	uri, text int
-	multi    bool // didChange with two content changes (the last one wins)
-	reopen   bool // didClose followed by didOpen (when the document is open)
+	multi     bool // didChange with two content changes (the last one wins)
+	reopen    bool // didClose followed by didOpen (when the document is open)
 }
 
 // freshBattery caches, per text, the responses of a fresh server that only opened that text.
